@@ -255,4 +255,125 @@ theorem isRightOrderExact_sound (p : ℤ) (I : LeftIdeal) (O' : Lattice)
     intro a ha b hb y hy
     rw [← mul_assoc]; exact hb _ (ha y hy)
 
+/-! ## connecting ideals -/
+
+theorem mul_span_intCast {p : ℤ} (O : Lat p) (N : ℤ) : O * Submodule.span ℤ {((N : ℤ) : H p)} = nsmul' N O := by
+  ext z
+  rw [Submodule.mem_mul_span_singleton, mem_nsmul']
+  constructor
+  · rintro ⟨w, hw, rfl⟩; exact ⟨w, hw, by rw [zsmul_eq_mul, (Int.cast_commute N w).eq]⟩
+  · rintro ⟨w, hw, rfl⟩; exact ⟨w, hw, by rw [zsmul_eq_mul, (Int.cast_commute N w).eq]⟩
+
+theorem mul_span_smul {p : ℤ} (O : Lat p) (N : ℤ) (b : H p) :
+    O * Submodule.span ℤ {N • b} = nsmul' N (O * Submodule.span ℤ {b}) := by
+  ext z
+  rw [Submodule.mem_mul_span_singleton, mem_nsmul']
+  constructor
+  · rintro ⟨w, hw, rfl⟩
+    exact ⟨w * b, Submodule.mem_mul_span_singleton.2 ⟨w, hw, rfl⟩, by rw [mul_smul_comm]⟩
+  · rintro ⟨y, hy, rfl⟩
+    obtain ⟨w, hw, rfl⟩ := Submodule.mem_mul_span_singleton.1 hy
+    exact ⟨w, hw, by rw [mul_smul_comm]⟩
+
+theorem nsmul'_mul {p : ℤ} (N : ℤ) (L A : Lat p) : nsmul' N L * A = nsmul' N (L * A) := by
+  apply le_antisymm
+  · rw [Submodule.mul_le]
+    rintro _ ⟨y, hy, rfl⟩ a ha
+    exact ⟨y * a, Submodule.mul_mem_mul hy ha, by
+      show N • (y * a) = (N • y) * a
+      rw [smul_mul_assoc]⟩
+  · rintro _ ⟨z, hz, rfl⟩
+    refine Submodule.mul_induction_on hz ?_ ?_
+    · intro y hy a ha
+      have : (LinearMap.lsmul ℤ (H p) N) (y * a) = (N • y) * a := by
+        show N • (y * a) = (N • y) * a
+        rw [smul_mul_assoc]
+      rw [this]
+      exact Submodule.mul_mem_mul ⟨y, hy, rfl⟩ ha
+    · intro u v hu hv
+      rw [map_add]; exact Submodule.add_mem _ hu hv
+
+theorem val_algScalar (p : ℤ) (N : ℤ) : val p (algScalar N 1) = ((N : ℤ) : H p) := by
+  apply QuaternionAlgebra.ext <;> simp [val, algScalar]
+
+theorem val_scalarMul_col (p : ℤ) (L : Lattice) (N : ℤ) (i : Nat) (hi : i < 4) :
+    val p ⟨L.denom, (L.basis.scalarMul N).col i⟩ = N • val p ⟨L.denom, L.basis.col i⟩ := by
+  obtain ⟨d, ⟨⟨a00, a01, a02, a03⟩, ⟨a10, a11, a12, a13⟩, ⟨a20, a21, a22, a23⟩, ⟨a30, a31, a32, a33⟩⟩⟩ := L
+  rcases i with _ | _ | _ | _ | i
+  case succ.succ.succ.succ => omega
+  all_goals
+    apply QuaternionAlgebra.ext <;>
+      simp [val, Mat4.scalarMul, Mat4.map, Vec4.map, Mat4.col, Vec4.get] <;> ring
+
+/-- a lattice is the sum of the lines through its four basis vectors -/
+theorem hLat_eq_sup (p : ℤ) (L : Lattice) :
+    hLat p L = Submodule.span ℤ {val p ⟨L.denom, L.basis.col 0⟩} ⊔ Submodule.span ℤ {val p ⟨L.denom, L.basis.col 1⟩} ⊔
+      Submodule.span ℤ {val p ⟨L.denom, L.basis.col 2⟩} ⊔ Submodule.span ℤ {val p ⟨L.denom, L.basis.col 3⟩} := by
+  rw [hLat_eq_span, ← Submodule.span_union, ← Submodule.span_union, ← Submodule.span_union]
+  congr 1
+  ext z
+  simp only [Mat4.cols, List.mem_cons, List.not_mem_nil, or_false, Set.mem_ofPred_eq, Set.mem_union, Set.mem_singleton_iff]
+  constructor
+  · rintro ⟨x, hx | hx | hx | hx, rfl⟩ <;> subst hx <;> simp
+  · rintro (((h | h) | h) | h) <;> subst h
+    · exact ⟨_, Or.inl rfl, rfl⟩
+    · exact ⟨_, Or.inr (Or.inl rfl), rfl⟩
+    · exact ⟨_, Or.inr (Or.inr (Or.inl rfl)), rfl⟩
+    · exact ⟨_, Or.inr (Or.inr (Or.inr rfl)), rfl⟩
+
+/-- **`quat_connecting_ideal` returns `N·O₁·O₂`** with `N = quat_lattice_index(O₁ ∩ O₂, O₁)`; for rings `O₁, O₂` with 1 it
+    is a left `O₁`- and right `O₂`-module (the defining inclusions of a connecting ideal). -/
+theorem connectingIdeal_spec (p : ℤ) (O1 O2 : Lattice) (prev : ℤ) (h1 : O1.denom ≠ 0) (h2 : O2.denom ≠ 0)
+    (hone : (1 : H p) ∈ hLat p O2) :
+    let N := latIndex (latIntersect O1 O2) O1
+    hLat p (connectingIdeal p O1 O2 prev).lattice = nsmul' N (hLat p O1 * hLat p O2) ∧
+    (hLat p O1 * hLat p O1 ≤ hLat p O1 →
+      hLat p O1 * hLat p (connectingIdeal p O1 O2 prev).lattice ≤ hLat p (connectingIdeal p O1 O2 prev).lattice) ∧
+    (hLat p O2 * hLat p O2 ≤ hLat p O2 →
+      hLat p (connectingIdeal p O1 O2 prev).lattice * hLat p O2 ≤ hLat p (connectingIdeal p O1 O2 prev).lattice) := by
+  intro N
+  have hs : (algScalar N 1).denom ≠ 0 := by simp [algScalar]
+  let b (i : Nat) : Elem := ⟨O2.denom, (O2.basis.scalarMul N).col i⟩
+  have hb : ∀ i, (b i).denom ≠ 0 := fun i => h2
+  obtain ⟨e0, d0⟩ := principalLattice_spec p (algScalar N 1) O1 h1 hs
+  have eb := fun i => principalLattice_spec p (b i) O1 h1 (hb i)
+  have hl : (connectingIdeal p O1 O2 prev).lattice =
+      latAdd (latAdd (latAdd (latAdd (principalLattice p (algScalar N 1) O1) (principalLattice p (b 0) O1))
+        (principalLattice p (b 1) O1)) (principalLattice p (b 2) O1)) (principalLattice p (b 3) O1) := rfl
+  have a1 := latAdd_spec (principalLattice p (algScalar N 1) O1) (principalLattice p (b 0) O1) d0 (eb 0).2
+  have a2 := latAdd_spec _ (principalLattice p (b 1) O1) a1.2 (eb 1).2
+  have a3 := latAdd_spec _ (principalLattice p (b 2) O1) a2.2 (eb 2).2
+  have hv : ∀ i, i < 4 → val p (b i) = N • val p ⟨O2.denom, O2.basis.col i⟩ := fun i hi => val_scalarMul_col p O2 N i hi
+  have key : hLat p (connectingIdeal p O1 O2 prev).lattice = nsmul' N (hLat p O1 * hLat p O2) := by
+    rw [hl, hLat_add p _ _ a3.2 (eb 3).2, hLat_add p _ _ a2.2 (eb 2).2, hLat_add p _ _ a1.2 (eb 1).2,
+      hLat_add p _ _ d0 (eb 0).2, e0, (eb 0).1, (eb 1).1, (eb 2).1, (eb 3).1, val_algScalar,
+      hv 0 (by omega), hv 1 (by omega), hv 2 (by omega), hv 3 (by omega), mul_span_intCast,
+      mul_span_smul, mul_span_smul, mul_span_smul, mul_span_smul]
+    unfold nsmul'
+    rw [← Submodule.map_sup, ← Submodule.map_sup, ← Submodule.map_sup, ← Submodule.map_sup]
+    congr 1
+    conv_rhs => rw [hLat_eq_sup p O2, Submodule.mul_sup, Submodule.mul_sup, Submodule.mul_sup]
+    apply le_antisymm
+    · refine sup_le (sup_le (sup_le (sup_le ?_ ?_) ?_) ?_) ?_
+      · intro a ha
+        have : a ∈ hLat p O1 * hLat p O2 := by
+          have := Submodule.mul_mem_mul ha hone; rwa [mul_one] at this
+        rwa [hLat_eq_sup p O2, Submodule.mul_sup, Submodule.mul_sup, Submodule.mul_sup] at this
+      · exact le_sup_of_le_left (le_sup_of_le_left le_sup_left)
+      · exact le_sup_of_le_left (le_sup_of_le_left le_sup_right)
+      · exact le_sup_of_le_left le_sup_right
+      · exact le_sup_right
+    · refine sup_le (sup_le (sup_le ?_ ?_) ?_) ?_
+      · exact le_sup_of_le_left (le_sup_of_le_left (le_sup_of_le_left le_sup_right))
+      · exact le_sup_of_le_left (le_sup_of_le_left le_sup_right)
+      · exact le_sup_of_le_left le_sup_right
+      · exact le_sup_right
+  refine ⟨key, ?_, ?_⟩
+  · intro hO1
+    rw [key, mul_smulLat, ← mul_assoc]
+    exact Submodule.map_mono (Submodule.mul_le.2 (fun m hm n hn => Submodule.mul_mem_mul (hO1 hm) hn))
+  · intro hO2
+    rw [key, nsmul'_mul, mul_assoc]
+    exact Submodule.map_mono (Submodule.mul_le.2 (fun m hm n hn => Submodule.mul_mem_mul hm (hO2 hn)))
+
 end SqiProofs.IdealFull
